@@ -1,0 +1,212 @@
+//go:build verif
+
+package main
+
+import (
+	"fmt"
+	"mltwist/internal/consoleui"
+	"mltwist/internal/consoleui/disassemble"
+	"mltwist/internal/consoleui/emulate"
+	"mltwist/internal/deps"
+	"mltwist/internal/elf"
+	"mltwist/internal/parser"
+	"mltwist/internal/riscv"
+	"mltwist/internal/state"
+	"mltwist/internal/state/memory"
+	"mltwist/pkg/model"
+	"os"
+	"path/filepath"
+	"strings"
+)
+
+// Start-up (property C26).
+//
+//	startup <hex of the file>
+//	    replays run() of cmd/mltwist in-process with the same public calls
+//	    (elf.NewParser, MachineCode, Memory, riscv.NewParser(Variant64, ExtM,
+//	    ExtA), parser.Parse, deps.NewCode, memory.NewBytes, disassemble.New,
+//	    consoleui.New) and stops before ui.Run():
+//	        <view> ;; ui | exit1:<stage> | skipped:alloc      (panic: PANIC)
+//	    stages: elf, code, memory, parse, model, bytes, uinew.
+//	startupbin <n> <arg>...
+//	    runs the REAL binary (path in $VERIF_MLTWIST_BIN) with n arguments, its
+//	    standard input empty, under a virtual memory limit and a timeout:
+//	        <view of the first argument> ;; ui | exit1:<stage> | crash | exit:<status> | timeout
+//	    <arg> = file:<hex> (a temporary file with these bytes) | dir (a
+//	    directory) | missing (a path that does not exist).
+//	    "ui": with no terminal on standard input the UI, once entered, fails at
+//	    once with "cannot print screen: cannot get terminal size"; that message
+//	    is how entering the UI is recognised. "crash": the output contains
+//	    "panic:", "goroutine " or "fatal error", or the process was killed by a
+//	    signal.
+
+// startupStage classifies the message of run() / main().
+func startupStage(msg string) string {
+	switch {
+	case strings.Contains(msg, "unexpected number of arguments"):
+		return "args"
+	case strings.Contains(msg, "cannot create elf parser"):
+		return "elf"
+	case strings.Contains(msg, "machine code cannot be extracted from ELF"):
+		return "code"
+	case strings.Contains(msg, "cannot extract program memory from ELF"):
+		return "memory"
+	case strings.Contains(msg, "instruction parsing failed"):
+		return "parse"
+	case strings.Contains(msg, "cannot parse model"):
+		return "model"
+	case strings.Contains(msg, "cannot create byte memory of a program"):
+		return "bytes"
+	case strings.Contains(msg, "cannot create console UI"):
+		return "uinew"
+	}
+	return "other"
+}
+
+// startupInProcess mirrors parseElf, run and runIU of cmd/mltwist/main.go.
+func startupInProcess(filename string) string {
+	parseElf := func() (*elf.Memory, model.Addr, *elf.Memory, string) {
+		p, err := elf.NewParser(filename)
+		if err != nil {
+			return nil, 0, nil, "elf"
+		}
+		defer p.Close()
+
+		code, err := p.MachineCode()
+		if err != nil {
+			return nil, 0, nil, "code"
+		}
+
+		mem, err := p.Memory()
+		if err != nil {
+			return nil, 0, nil, "memory"
+		}
+
+		return code, p.Entrypoint(), mem, ""
+	}
+
+	code, entrypoint, mem, stage := parseElf()
+	if stage != "" {
+		return "exit1:" + stage
+	}
+
+	riscvParser := riscv.NewParser(riscv.Variant64, riscv.ExtM, riscv.ExtA)
+	ins, err := parser.Parse(code, riscvParser)
+	if err != nil {
+		return "exit1:parse"
+	}
+
+	program, err := deps.NewCode(entrypoint, ins)
+	if err != nil {
+		return "exit1:model"
+	}
+
+	memBlocks := make([]memory.ByteBlock, len(mem.Blocks))
+	for i, b := range mem.Blocks {
+		memBlocks[i] = b
+	}
+
+	byteMem, err := memory.NewBytes(memBlocks)
+	if err != nil {
+		return "exit1:bytes"
+	}
+
+	emulF := func(p *deps.Code, ip model.Addr) (consoleui.Mode, error) {
+		m := memory.NewOverlay(byteMem, memory.NewSparse())
+
+		stat := &state.State{
+			Regs: state.NewRegMap(),
+			Mems: memory.MemMap{
+				riscv.MemoryKey: m,
+			},
+		}
+
+		emul, err := emulate.New(p, ip, stat)
+		if err != nil {
+			return nil, fmt.Errorf("cannot create emulation mode: %w", err)
+		}
+
+		return emul, nil
+	}
+
+	disass := disassemble.New(program, emulF)
+	if _, err := consoleui.New(disass); err != nil {
+		return "exit1:uinew"
+	}
+
+	return "ui"
+}
+
+// binOutcome classifies a finished run of the real binary.
+func binOutcome(stdout, stderr string, status int, timedOut bool) string {
+	all := stdout + stderr
+	switch {
+	case timedOut:
+		return "timeout"
+	case strings.Contains(all, "panic:"), strings.Contains(all, "goroutine "),
+		strings.Contains(all, "fatal error"), status < 0:
+		return "crash"
+	case status == 1 && strings.HasPrefix(stderr, "mltwist: "):
+		if strings.Contains(stderr, "cannot print screen: cannot get terminal size") {
+			return "ui"
+		}
+		return "exit1:" + startupStage(stderr)
+	}
+	return fmt.Sprintf("exit:%d", status)
+}
+
+func init() {
+	register("startup", func(t *tokens) string {
+		content := t.hex()
+		return withTempFile(content, func(path string) string {
+			view, fill := elfView(path)
+			if fill > maxInProcessAlloc {
+				return view + " ;; skipped:alloc"
+			}
+			return view + " ;; " + startupInProcess(path)
+		})
+	})
+	register("startupbin", func(t *tokens) string {
+		bin := os.Getenv("VERIF_MLTWIST_BIN")
+		if bin == "" {
+			panic(parseError("VERIF_MLTWIST_BIN is not set"))
+		}
+		n := t.int()
+		if n < 0 || n > 16 {
+			panic(parseError("bad argument count"))
+		}
+		dir, err := os.MkdirTemp("", "verif-startup-*")
+		if err != nil {
+			panic(parseError("cannot create temporary directory"))
+		}
+		defer os.RemoveAll(dir)
+
+		args := make([]string, n)
+		for i := range args {
+			spec := t.next()
+			path := filepath.Join(dir, fmt.Sprintf("arg%d", i))
+			switch {
+			case spec == "dir":
+				if err := os.Mkdir(path, 0o755); err != nil {
+					panic(parseError("cannot create directory"))
+				}
+			case spec == "missing":
+			case strings.HasPrefix(spec, "file:"):
+				bs := (&tokens{toks: []string{strings.TrimPrefix(spec, "file:")}}).hex()
+				if err := os.WriteFile(path, bs, 0o644); err != nil {
+					panic(parseError("cannot write file"))
+				}
+			default:
+				panic(parseError("bad argument"))
+			}
+			args[i] = path
+		}
+
+		view := "view E"
+		if n > 0 {
+			view, _ = elfView(args[0])
+		}
+		so, se, status, timedOut := runLimited(append([]string{bin}, args...), nil)
+		return view + " ;; " + binOutcome(so, se, status, timedOut)
+	})
+}
